@@ -53,6 +53,9 @@ BASES = [
     ('\\documentclass[', ']{article} A'),
     ('\\newglossaryentry{x}{name=', '} A'),
     ('\\newglossaryentry{x}{', '} A'),
+    ('\\newglossaryentry{x}{description', '} A'),
+    ('\\newglossaryentry{x}{name', ',description} A \\gls{x}'),
+    ('\\newacronym{x}{', '}{y} A'),
     ('\\gls@defglossaryentry{x}{text=', '}\\gls{x}'),
     ('\\gls{', '} A'),
     ('\\selectlanguage{', '} A "a'),
@@ -79,13 +82,14 @@ def base_opts(doc):
     """only the packages the base document needs (package set-up is re-executed, traced, on
     every path)"""
     need = []
-    for key, pk in (('align', 'amsmath'), ('proof', 'amsthm'), ('gls', 'glossaries'),
+    for key, pk in (('align', 'amsmath'), ('proof', 'amsthm'), ('gls', 'glossaries'), ('gloss', 'glossaries'),
+                    ('acronym', 'glossaries'),
                     ('language', 'babel'), ('cref', 'cleveref'), ('geometry', 'geometry'),
                     ('includegraphics', 'graphicx'), ('lstset', 'listings'),
                     ('textcolor', 'xcolor'), ('href', 'hyperref')):
         if key in doc:
             need.append(pk)
-    o = {'pack': ','.join(need)}
+    o = {'pack': ','.join(sorted(set(need)))}
     if '"' in doc or 'language' in doc:
         o['lang'] = 'de'
     return o
